@@ -114,3 +114,31 @@ Inductive chain2 {A I} (pi : A -> I) : side A -> list (op A A) -> radii -> radii
 | chain2_cons : forall H s DS DI M Hrest rest DSs DIs Ms,
     rad_wf DS -> rad_wf DI -> rad_wf M -> keeps pi s -> local2 pi H s DS DI M -> chain2 pi Hrest rest DSs DIs Ms ->
     chain2 pi (side_comp H s Hrest DSs) (s :: rest) (radd DSs DS) (rmax DIs (radd DSs DI)) (rmax Ms (radd DSs M)).
+
+(* ---------------------------------------------------------------- vertical flip
+
+   "flipping both images vertically changes nothing but the orientation of the result": row r of the flipped
+   raster is row nr - 1 - r of the raster (columns are kept); a step commutes with the flip when, run on the flipped
+   raster, it writes at (r, c) what it writes at (nr - 1 - r, c) of the raster -- for EVERY pixel of the raster,
+   the first and last rows included (no cone condition: the flip is a statement on the whole result).  [E] is the
+   relation in which the two results are compared (equality; for a state holding rationals as fractions: the same
+   rational number). *)
+Definition frow {A} (F : frame A) (r : Z) : Z := f_nr F - 1 - r.
+Definition vflip {A} (F : frame A) : frame A := mkFrame (f_nr F) (f_nc F) (fun r c => f_at F (frow F r) c).
+
+Definition vflip_commutes {A B} (E : B -> B -> Prop) (f : op A B) : Prop :=
+  forall F r c, in_frame F r c -> E (f (vflip F) r c) (f F (frow F r) c).
+
+(* F' is a flipped copy of F, pixel by pixel up to E (what composes: the raster a step produces from a flipped
+   copy is a flipped copy of what it produces from the raster) *)
+Definition flipped {A} (E : A -> A -> Prop) (F' F : frame A) : Prop :=
+  f_nr F' = f_nr F /\ f_nc F' = f_nc F /\
+  forall r c, in_frame F r c -> E (f_at F' r c) (f_at F (frow F r) c).
+Definition flip_ok {A} (E : A -> A -> Prop) (f : op A A) : Prop :=
+  forall F' F, flipped E F' F -> forall r c, in_frame F r c -> E (f F' r c) (f F (frow F r) c).
+
+(* the same, for rasters of nr x nc pixels only (a step whose window is clipped to the raster commutes with the flip
+   for the sizes that leave it an odd window) *)
+Definition flip_ok_at {A} (nr nc : Z) (E : A -> A -> Prop) (f : op A A) : Prop :=
+  forall F' F, f_nr F = nr -> f_nc F = nc -> flipped E F' F ->
+  forall r c, in_frame F r c -> E (f F' r c) (f F (frow F r) c).
